@@ -37,6 +37,7 @@ type VC struct {
 	Modular  map[string]bool // callee contracts assumed
 	Extern   map[string]bool // external/stdlib functions with built-in contracts
 	Unsup    []string
+	DefInst  []string         // instantiated defining equations (assume_def)
 	CutSyms  map[string]*Term // named cut symbols
 	Globals  map[*ssa.Global]*Alloc
 	GState   *State // state after package init
@@ -120,6 +121,8 @@ type Exec struct {
 	callN  map[string]int
 	top    *Exec
 	callRes       map[string]Value
+	hdrState      map[*loopInfo]*State
+	hdrPhis       map[*loopInfo]map[*ssa.Phi]Value
 	initMode      bool
 	forceInline   map[string]bool
 	appendMustFit bool
@@ -946,17 +949,18 @@ func (ex *Exec) execInstr(ins ssa.Instruction, pc *Term, st *State) {
 		ex.env[i] = mapCond(ex.val(i.X), func(v Value) Value { return v.(*StructV).Fields[i.Field] })
 	case *ssa.IndexAddr:
 		idx := ex.term(ex.val(i.Index))
-		ex.env[i] = mapCond(ex.val(i.X), func(v Value) Value {
+		ex.env[i] = mapCondG(ex.val(i.X), func(g *Term, v Value) Value {
+			gpc := And(pc, g)
 			switch x := v.(type) {
 			case *SliceV:
-				ex.vc.Oblige(ex.obName("safety", "index_in_range"), "safety", Implies(pc, And(ILe(IntLit(0), idx), ILt(idx, x.Len))))
+				ex.vc.Oblige(ex.obName("safety", "index_in_range"), "safety", Implies(gpc, And(ILe(IntLit(0), idx), ILt(idx, x.Len))))
 				if x.Base == nil {
 					return &NilV{}
 				}
 				return &PtrV{A: x.Base, Path: []PathElem{{Field: -1, Index: IAdd(x.Off, idx)}}}
 			case *PtrV: // pointer to array
 				at, _ := i.X.Type().Underlying().(*types.Pointer).Elem().Underlying().(*types.Array)
-				ex.vc.Oblige(ex.obName("safety", "index_in_range"), "safety", Implies(pc, And(ILe(IntLit(0), idx), ILt(idx, IntLit(at.Len())))))
+				ex.vc.Oblige(ex.obName("safety", "index_in_range"), "safety", Implies(gpc, And(ILe(IntLit(0), idx), ILt(idx, IntLit(at.Len())))))
 				return &PtrV{A: x.A, Path: append(append([]PathElem(nil), x.Path...), PathElem{Field: -1, Index: idx})}
 			}
 			ex.unsupported("IndexAddr on %s", describeValue(v))
